@@ -5,8 +5,6 @@ type nat =
 | O
 | S of nat
 
-val snd : ('a1 * 'a2) -> 'a2
-
 val length : 'a1 list -> nat
 
 val app : 'a1 list -> 'a1 list -> 'a1 list
@@ -399,9 +397,8 @@ val list_eqb : nat list -> nat list -> bool
 
 val res_ok : res option -> nat list -> bool
 
-val bindo : (z * nat) list -> z -> nat -> (z * nat) list option
-
-val unbind : (z * nat) list -> nat -> (z * nat) list
+val bindo :
+  (nat -> bool) -> (z * nat) list -> z -> nat -> (z * nat) list option
 
 val bindthr : (nat -> nat option) -> nat -> nat -> (nat -> nat option) option
 
